@@ -3,7 +3,8 @@
        shapes, and the CNF pipeline ends in Chomsky normal form;
    (b) the checkers that the correspondence run evaluates on every output of the implementation are
        sound and complete for the predicates they stand for.
-   Statements only; proofs in proofs/ShapeProofs.v, UsefulProofs.v, TrimProofs.v. *)
+   (c) the modelled trim() returns only useful symbols and is idempotent, for every grammar.
+   Statements only; proofs in proofs/ShapeProofs.v, UsefulProofs.v, TrimProofs.v, TrimUsefulProofs.v. *)
 From Coq Require Import List Arith Relations.
 From GV.lib Require Import Semiring BigSum.
 From GV.model Require Import Cfg Transform Cky Transform2 Useful.
@@ -82,3 +83,28 @@ Example C07_nonvacuous :
   unary_cyclic [((true : BoolSR), 0, [N 1]); (true, 1, [N 0])] = true.
 Proof. vm_compute. repeat split. Qed.
 Print Assumptions C07_nonvacuous.
+
+(* trim(): for EVERY grammar and start symbol the modelled trim (model/TopDown.v; its rule list is compared with the
+   implementation's on every run, and it is proved weight-preserving in C06) returns a grammar all of whose symbols
+   are useful in the result -- every head and every body nonterminal is productive in the trimmed grammar and
+   reachable from the start symbol in the trimmed grammar; an already trimmed grammar is returned unchanged (same
+   rules, order and weights), so trimming is idempotent. *)
+From GV.model Require TopDown.
+From GV.proofs Require TopDownTrimProofs TrimUsefulProofs.
+Theorem C07_trim_all_useful : forall (S : SR) (s : nat) (G : grammar S),
+  all_useful s (TopDown.trim_model s G) = true /\
+  (all_useful s G = true -> TopDown.trim_model s G = G) /\
+  TopDown.trim_model s (TopDown.trim_model s G) = TopDown.trim_model s G.
+Proof.
+  intros S s G.
+  split; [exact (TrimUsefulProofs.trim_model_all_useful S s G)|].
+  split; [exact (TrimUsefulProofs.all_useful_trim_fixed S s G)|exact (TrimUsefulProofs.trim_model_idempotent S s G)].
+Qed.
+Print Assumptions C07_trim_all_useful.
+
+Example C07_trim_nonvacuous :
+  all_useful 0 (TopDown.trim_model 0 TopDownTrimProofs.td_ex_G) = true /\
+  all_useful 0 TopDownTrimProofs.td_ex_G = false /\
+  length (TopDown.trim_model 0 TopDownTrimProofs.td_ex_G) = 3.
+Proof. vm_compute. repeat split. Qed.
+Print Assumptions C07_trim_nonvacuous.
